@@ -270,12 +270,28 @@ func (ts *TermStore) Eq(a, b *Term) *Term {
 			return ts.Not(a)
 		}
 	}
-	// ite(c, k1, k2) == k  with constants: simplify
-	if b.IsConst() && a.Op == OpIte && a.Args[1].IsConst() && a.Args[2].IsConst() {
-		return ts.Ite(a.Args[0], ts.Bool(a.Args[1].C == b.C), ts.Bool(a.Args[2].C == b.C))
+	// ite-chain of constants == k: push the comparison through the chain
+	if a.IsConst() {
+		a, b = b, a
 	}
-	if a.IsConst() && b.Op == OpIte && b.Args[1].IsConst() && b.Args[2].IsConst() {
-		return ts.Ite(b.Args[0], ts.Bool(b.Args[1].C == a.C), ts.Bool(b.Args[2].C == a.C))
+	if b.IsConst() && a.Op == OpIte && a.W > 0 {
+		depth := 0
+		for x := a; x.Op == OpIte && (x.Args[1].IsConst() || x.Args[2].IsConst()); depth++ {
+			if x.Args[1].IsConst() {
+				x = x.Args[2]
+			} else {
+				x = x.Args[1]
+			}
+			if depth > 40 {
+				break
+			}
+		}
+		if a.Args[1].IsConst() && (a.Args[2].IsConst() || (a.Args[2].Op == OpIte && depth <= 40)) {
+			return ts.Ite(a.Args[0], ts.Bool(a.Args[1].C == b.C), ts.Eq(a.Args[2], b))
+		}
+		if a.Args[2].IsConst() && a.Args[1].Op == OpIte && depth <= 40 {
+			return ts.Ite(a.Args[0], ts.Eq(a.Args[1], b), ts.Bool(a.Args[2].C == b.C))
+		}
 	}
 	if a.W > 0 {
 		// cancel common linear parts: a == b  <=>  pos == neg with d = a - b split by coefficient sign
